@@ -54,6 +54,10 @@ pub struct UnknownEv {
     /// inserted after base event number k (0 = right after Game Start); may repeat
     pub after: Vec<u32>,
     pub pseed: u64,
+    /// delivered through Message Splitter blocks (as the Gecko list is); only from 3.3 on, and never
+    /// in the middle of another split message
+    #[serde(default)]
+    pub split: bool,
 }
 
 #[derive(Serialize, Deserialize, Clone, Debug, PartialEq, Default)]
@@ -150,6 +154,10 @@ pub struct StreamSpec {
     /// unrelated bytes follow the replay's closing brace
     #[serde(default)]
     pub suffix: u32,
+    /// after a short read, the part of the caller's buffer beyond the bytes delivered is overwritten
+    /// with junk (a `Read` implementation may use the whole buffer as scratch space)
+    #[serde(default)]
+    pub scribble: bool,
 }
 
 impl Default for StreamSpec {
@@ -164,6 +172,7 @@ impl Default for StreamSpec {
             hard_error_offset: None,
             prefix: 0,
             suffix: 0,
+            scribble: false,
         }
     }
 }
